@@ -782,7 +782,7 @@ def quantize(x, bits):
 
 
 def gen_case(rng, nmax, nmin=1):
-    style = rng.choice(['decades', 'decades', 'narrow', 'equal', 'ties', 'tiny', 'ints'])
+    style = rng.choice(['decades', 'decades', 'narrow', 'equal', 'ties', 'tiny', 'ints', 'wide'])
     if nmin > 1:
         n = rng.randint(nmin, nmax)
     else:
@@ -791,6 +791,16 @@ def gen_case(rng, nmax, nmin=1):
         span = rng.choice([1.0, 3.0, 6.0, 12.0])
         c = rng.uniform(-3, 3)
         g = [logu(rng, c - span / 2, c + span / 2) for _ in range(n)]
+    elif style == 'wide':
+        # dynamic range beyond 1/eps (16..36 decades): a gain that is "numerically zero" relative to the
+        # best one still gets power when the budget reaches its level (round-5 seed C12_r5_2)
+        span = rng.choice([16.0, 18.0, 24.0, 36.0])
+        c = rng.uniform(-3, 3)
+        n = min(n, 8)
+        g = [logu(rng, c - span / 2, c + span / 2) for _ in range(n)]
+        if n >= 2:
+            g[rng.below(n)] = 10.0 ** (c + span / 2)
+            g[rng.below(n)] = 10.0 ** (c - span / 2)
     elif style == 'narrow':
         c = logu(rng, -2, 2)
         g = [c * (1 + 1e-3 * rng.uniform(-1, 1)) for _ in range(n)]
@@ -811,10 +821,14 @@ def gen_case(rng, nmax, nmin=1):
     # choose P around the threshold of a target number of used channels, so that
     # every number of dropped channels is produced
     k = rng.randint(1, n)
+    if style == 'wide' and rng.chance(0.7):
+        k = n
     t = threshold_P(g, N, Es, k)
     t_next = threshold_P(g, N, Es, k + 1) if k < n else None
     mode = rng.below(4)
-    if mode == 0 and t_next is not None and t_next > t:
+    if style == 'wide' and k == n and t > 0:
+        P = t * (1 + logu(rng, -2, 2))          # every channel, also the weakest, is in use
+    elif mode == 0 and t_next is not None and t_next > t:
         P = t + (t_next - t) * rng.uniform(0.02, 0.98)
     elif mode == 1 and t > 0:
         P = t * logu(rng, 0.01, 2)
@@ -860,6 +874,9 @@ BOUNDARY = [
     {'g': [4.0, 2.0, 1.0], 'P': 1.25, 'N': 1.0, 'Es': 1.0},      # P exactly at the 3-channel threshold
     {'g': [1.0, 2.0, 4.0, 8.0], 'P': 100.0, 'N': 1.0, 'Es': 0.5},
     {'g': [0.3, 0.2, 0.1], 'P': 1e-6, 'N': 1.0, 'Es': 1.0},
+    {'g': [1.0, 1e-17], 'P': 1.0, 'N': 1e-20, 'Es': 1.0},        # weakest gain below eps * best, still in use
+    {'g': [1e10, 1.0, 1e-10], 'P': 1e12, 'N': 1.0, 'Es': 1.0},
+    {'g': [1e-18, 3.0, 1e-18, 1.0], 'P': 4e18, 'N': 1.0, 'Es': 1.0},
 ]
 
 
@@ -955,6 +972,10 @@ def compare_one(ctx, case, m):
         ctx.branch('n>=32')
     if max(cc['g']) / min(cc['g']) >= 1e9:
         ctx.branch('gain-spread>=1e9')
+    if max(cc['g']) / min(cc['g']) >= 1e16:
+        ctx.branch('gain-spread>=1e16')
+        if m is not None and getattr(m, 'get', None) and m.get('dropped') == 0:
+            ctx.branch('gain-spread>=1e16:weakest-in-use')
     for b in case.get('branches', ()):
         ctx.branch(b)
     if cc.get('variant'):
@@ -1285,7 +1306,7 @@ def oracles(ctx, cases):
 
 
 def check(ctx):
-    ctx.rule = ('gain vectors of length 1..64 (quick) / 1..256 (thorough; vectors longer than 12 use 16/8-bit mantissas): log-uniform over 1/3/6/12 decades, '
+    ctx.rule = ('gain vectors of length 1..64 (quick) / 1..256 (thorough; vectors longer than 12 use 16/8-bit mantissas): log-uniform over 1/3/6/12 decades and (<= 8 channels) 16..36 decades with the weakest channel in use, '
                 'narrow (1e-3 spread), all equal, few distinct values (ties), tiny gains, small integers; '
                 'N, Es in 1e-2..1e2 (Es=1 and Es!=1); P placed between the thresholds of a target number of used '
                 'channels, at multiples of a threshold, or log-uniform; plus a dyadic stream (powers of two) '
@@ -1300,7 +1321,7 @@ def check(ctx):
     n_rand, n_dyadic, nmax, n_big = (3000, 1000, 64, 0) if quick else (20000, 10000, 128, 600)
     core.prove(ctx, MODULE, generated=[], drivers=[DRIVER], scratch=ctx.scratch)
     ctx.required_branches = ['dropped=0', 'dropped>=1', 'only-best-kept', 'Es!=1', 'ties', 'n=1', 'n>=32',
-                             'gain-spread>=1e9', 'exact-dyadic', 'error-case']
+                             'gain-spread>=1e9', 'gain-spread>=1e16', 'exact-dyadic', 'error-case']
     cases = make_cases(ctx, n_rand, n_dyadic, nmax, n_big, grid=not quick)
     # robustness classes: R5/R6 streams and the R1/R2 input variants also go through the
     # correspondence (model on the logical values) and the standard first-principles oracles
